@@ -29,6 +29,9 @@ type FaultReader struct {
 	// Block, if set, makes every Read wait until the channel is closed (a terminal, a socket or a
 	// pipe whose producer says nothing); afterwards the reader behaves as configured
 	Block   chan struct{}
+	// ErrWithData: the failing Read hands out the last bytes before offset K TOGETHER with the
+	// error (n > 0 and err != nil in one call), as the io.Reader contract allows
+	ErrWithData bool
 	pos     int
 	Failed  int // number of times Err was returned
 	Reads   int
@@ -75,6 +78,14 @@ func (f *FaultReader) Read(p []byte) (int, error) {
 	if f.OnByte != nil {
 		f.OnByte(f.pos)
 	}
+	if f.ErrWithData && f.pos >= limit && f.K >= 0 && f.K <= len(f.Doc) {
+		f.Failed++
+		e := f.Err
+		if e == nil {
+			e = ErrReader
+		}
+		return n, e
+	}
 	return n, nil
 }
 
@@ -103,6 +114,9 @@ type RecWriter struct {
 	Concurrent int // max concurrent Write calls observed (must stay 1)
 	inflight   int
 	OnWrite    func(i int)
+	// Block, if set, makes every Write wait until the channel is closed (a consumer that has
+	// stopped reading), then fail
+	Block chan struct{}
 	// unsync is touched by every Write WITHOUT the recorder's own lock: two Write calls that the
 	// callee does not order (one lock, one goroutine) are then a data race the race detector
 	// reports, whether or not they happen to overlap in time. Never read.
@@ -135,6 +149,14 @@ func (w *RecWriter) Write(p []byte) (int, error) {
 		time.Sleep(delay)
 	}
 
+	if w.Block != nil {
+		<-w.Block
+		w.mu.Lock()
+		w.inflight--
+		w.Failed++
+		w.mu.Unlock()
+		return 0, ErrWriter
+	}
 	w.mu.Lock()
 	defer w.mu.Unlock()
 	w.inflight--
